@@ -329,6 +329,18 @@ func runC19(ctx *Ctx) *Result {
 		for k := 0; k < n; k++ {
 			it := a.DeepCopy()
 			it.Name = fmt.Sprintf("s%d", k)
+			if k%2 == 1 {
+				// every other item lacks what its neighbour has (and the other way round)
+				it.Annotations, it.Labels = nil, map[string]string{"only-on": it.Name}
+				it.Spec.Replicas = nil
+				it.Spec.VolumeClaimTemplates = nil
+				it.Status = asv1.StatefulSetStatus{}
+			} else {
+				if it.Annotations == nil {
+					it.Annotations = map[string]string{}
+				}
+				it.Annotations[helper.DeleteSlotsAnn] = fmt.Sprintf("[%d]", k)
+			}
 			l.Items = append(l.Items, *it)
 		}
 		bl, err := helper.ToBuiltinStetefulsetList(l)
@@ -338,6 +350,11 @@ func runC19(ctx *Ctx) *Result {
 			for k := range bl.Items {
 				if bl.Items[k].Name != fmt.Sprintf("s%d", k) || bl.Items[k].APIVersion != "apps/v1" {
 					add(i, "list-order-or-type", fmt.Sprintf("item %d is %s typed %s", k, bl.Items[k].Name, bl.Items[k].APIVersion), nil)
+				}
+				// each listed item must be what converting that item alone gives
+				if single, err := helper.ToBuiltinStatefulSet(&l.Items[k]); err == nil && !apiequality.Semantic.DeepEqual(*single, bl.Items[k]) {
+					add(i, "list-item-mixed-up", fmt.Sprintf("item %d of a converted list differs from the same item converted alone: %s%s", k,
+						jsonSubset(toGeneric(single), toGeneric(bl.Items[k]), ""), jsonSubset(toGeneric(bl.Items[k]), toGeneric(single), "")), nil)
 				}
 			}
 		}
@@ -383,6 +400,10 @@ func runC19(ctx *Ctx) *Result {
 		// a second object, then List and Patch through the hijack client
 		in2 := in.DeepCopy()
 		in2.Name = "web2"
+		in2.Annotations, in2.Labels = map[string]string{"only": "web2"}, nil
+		in2.Spec.VolumeClaimTemplates = nil
+		rep2 := int32(7)
+		in2.Spec.Replicas = &rep2
 		if _, err := hc.AppsV1().StatefulSets("ns").Create(bg, in2, metav1.CreateOptions{}); err != nil {
 			add(i, "hijack-create-failed", err.Error(), nil)
 		} else if l, err := hc.AppsV1().StatefulSets("ns").List(bg, metav1.ListOptions{}); err != nil {
@@ -399,6 +420,12 @@ func runC19(ctx *Ctx) *Result {
 				}
 				if !apiequality.Semantic.DeepEqual(l.Items[0].Spec, again.Spec) {
 					add(i, "list-item-differs-from-get", jsonSubset(toGeneric(again.Spec), toGeneric(l.Items[0].Spec), "spec"), nil)
+				}
+				for k := range l.Items {
+					g, err := hc.AppsV1().StatefulSets("ns").Get(bg, l.Items[k].Name, metav1.GetOptions{})
+					if err == nil && !apiequality.Semantic.DeepEqual(*g, l.Items[k]) {
+						add(i, "list-item-differs-from-get", fmt.Sprintf("listed %s differs from Get: %s%s", g.Name, jsonSubset(toGeneric(g), toGeneric(l.Items[k]), ""), jsonSubset(toGeneric(l.Items[k]), toGeneric(g), "")), nil)
+					}
 				}
 			}
 		}
@@ -496,6 +523,10 @@ func c19Codec(ctx *Ctx, res *Result, add func(int, string, string, interface{}))
 			res.Evaluations++
 			res.Stats["slot_codec_cases"]++
 			o := &metaObj{}
+			if ci%2 == 0 {
+				// an object as read from the API server: it has an identity and a version, and is edited locally
+				o.UID, o.ResourceVersion = types.UID(fmt.Sprintf("uid-%d", ci%7)), fmt.Sprint(100+ci%3)
+			}
 			if base != nil {
 				o.Annotations = map[string]string{}
 				for k, v := range base {
